@@ -334,6 +334,9 @@ func (m *vfC11Mon) SetMaxDatagramSize(size congestion.ByteCount) {
 	m.mds = int64(size)
 	m.note("SetMaxDatagramSize(%d)", size)
 	m.BrutalSender.SetMaxDatagramSize(size)
+	if !m.failed && !vfC11CheckWindow(m.k, m.replay, m.BrutalSender, m.mds, "right after SetMaxDatagramSize (real quic-go)") {
+		m.failed = true
+	}
 }
 
 var _ congestion.CongestionControlEx = &vfC11Mon{}
